@@ -6,6 +6,7 @@
     Soundness against arbitrary provers is computational (discrete log) and is NOT claimed. *)
 From Coq Require Import ZArith List Bool.
 From CB Require Import Crypto.RangeStmt Crypto.RangeStmtProofs.
+From CB Require Import Crypto.BpAlg Crypto.Ipa Crypto.RangeProof Crypto.SetProof Crypto.BpTheorems.
 Import ListNotations.
 Local Open Scope Z_scope.
 
@@ -90,6 +91,112 @@ Proof.
   repeat split; try assumption; try apply B. apply pad_pow2_prefix.
 Qed.
 Print Assumptions set_padding_shape.
+
+(** * The protocols, over every commutative ring F and F-module G satisfying [bp_laws]
+    (challenges are arbitrary elements; where the code inverts one, its inverse is a separate
+    element with u * ui = 1). *)
+
+(** inner-product argument: for vectors of length 2^k, all generators and all challenges, the honest
+    transcript satisfies the verifier's check, and has one (L,R) pair per round *)
+Theorem ipa_complete : forall Ops, bp_laws Ops -> forall us Gs Hs Q a b,
+  inv_ok Ops us ->
+  length a = Nat.pow 2 (length us) -> length b = Nat.pow 2 (length us) ->
+  length Gs = Nat.pow 2 (length us) -> length Hs = Nat.pow 2 (length us) ->
+  forall lr fa fb, ipa_prove Ops us Gs Hs Q a b = (lr, fa, fb) ->
+  ipa_check Ops us Gs Hs Q (ipa_statement Ops a b Gs Hs Q) lr fa fb /\ length lr = length us.
+Proof. exact ipa_complete_l. Qed.
+Print Assumptions ipa_complete.
+
+(** the single multi-exponentiation evaluated by [verify_inner_product_with_scalars] is the neutral
+    element iff the textbook check holds for H' = c o H and P' = the given combination *)
+Theorem ipa_verifier_single_multiexp : forall Ops, bp_laws Ops -> forall us c Gs Hs Q Xs eG eH eQ eX lr a b,
+  length Gs = Nat.pow 2 (length us) -> length Hs = length Gs -> length c = length Gs ->
+  length eG = length Gs -> length eH = length Gs ->
+  (ipa_code_lhs Ops us c Gs Hs Q Xs eG eH eQ eX lr a b = o_g0 Ops
+   <-> ipa_check Ops us Gs (gvmul Ops c Hs) Q
+         (o_gadd Ops (o_gadd Ops (o_gadd Ops (msum Ops eG Gs) (msum Ops eH Hs)) (o_smul Ops eQ Q)) (msum Ops eX Xs))
+         lr a b).
+Proof. exact ipa_code_form_l. Qed.
+Print Assumptions ipa_verifier_single_multiexp.
+
+(** the verifier returns Ok iff an explicit conjunction of two group equations holds (and the
+    challenges it inverts are invertible) - this is what "altered in any component" reduces to *)
+Theorem verify_is_equations : forall Ops, bp_laws Ops -> forall Gs Hs B Bt p Vterm delta eG eH y yi x w us,
+  bp_verdict Ops Gs Hs B Bt p Vterm delta eG eH y yi x w us = VOk
+  <-> ((bp_eq1_lhs Ops B Bt p = bp_eq1_rhs Ops B p Vterm delta x
+        /\ bp_eq2_lhs Ops Gs Hs B Bt p eG eH yi x w us = o_g0 Ops)
+       /\ o_fmul Ops y yi = o_f1 Ops /\ inv_ok Ops us).
+Proof. exact verdict_ok_iff_l. Qed.
+Print Assumptions verify_is_equations.
+
+(** range proof completeness: every bit width n, batch size m = length vs with n*m = 2^k, all
+    blinding scalars, all challenges; commitments are to the values represented by the n low bits
+    (equal to v iff 0 <= v < 2^n by [bits_iff_in_range]) *)
+Theorem range_complete : forall Ops, bp_laws Ops -> forall n vs rs Gs Hs B Bt sL sR at_ st t1t t2t y yi z x w us,
+  length rs = length vs ->
+  length Gs = Nat.pow 2 (length us) -> length Gs = (n * length vs)%nat -> length Hs = length Gs ->
+  length sL = length Gs -> length sR = length Gs ->
+  o_fmul Ops y yi = o_f1 Ops -> inv_ok Ops us ->
+  range_verdict Ops n (vzip (commit Ops B Bt) (map (fval Ops n) vs) rs) Gs Hs B Bt
+    (range_prove Ops n vs rs Gs Hs B Bt sL sR at_ st t1t t2t y yi z x w us) y yi z x w us = VOk.
+Proof. exact range_complete_p. Qed.
+Print Assumptions range_complete.
+
+(** set membership: a proof exists iff v is in the set, and it verifies (sets of every size >= 1 after
+    padding; the padded length must be the number of generators = 2^k) *)
+Theorem set_member_complete : forall Ops, bp_laws Ops -> forall set v vr Gs Hs B Bt sL sR at_ st t1t t2t y yi z x w us,
+  In v set ->
+  length Gs = Nat.pow 2 (length us) -> length Gs = length (pad_pow2 set) -> length Hs = length Gs ->
+  length sL = length Gs -> length sR = length Gs ->
+  o_fmul Ops y yi = o_f1 Ops -> inv_ok Ops us ->
+  exists p, mem_prove Ops set v vr Gs Hs B Bt sL sR at_ st t1t t2t y yi z x w us = Some p
+    /\ mem_verdict Ops set (commit Ops B Bt v vr) Gs Hs B Bt p y yi z x w us = VOk.
+Proof. exact mem_complete_p. Qed.
+Print Assumptions set_member_complete.
+
+Theorem set_member_no_honest_proof_outside : forall Ops, bp_laws Ops -> forall set v vr Gs Hs B Bt sL sR at_ st t1t t2t y yi z x w us,
+  ~ In v set -> mem_prove Ops set v vr Gs Hs B Bt sL sR at_ st t1t t2t y yi z x w us = None.
+Proof. exact mem_no_proof_p. Qed.
+Print Assumptions set_member_no_honest_proof_outside.
+
+Theorem set_nonmember_complete : forall Ops, bp_laws Ops -> forall set v vr invs Gs Hs B Bt sL sR at_ st t1t t2t y yi z x w us,
+  ~ In v set ->
+  Forall2 (fun si iv => o_fmul Ops (o_fsub Ops v si) iv = o_f1 Ops) (pad_pow2 set) invs ->
+  length Gs = Nat.pow 2 (length us) -> length Gs = length (pad_pow2 set) -> length Hs = length Gs ->
+  length sL = length Gs -> length sR = length Gs ->
+  o_fmul Ops y yi = o_f1 Ops -> inv_ok Ops us ->
+  exists p, nonmem_prove Ops set v vr invs Gs Hs B Bt sL sR at_ st t1t t2t y yi z x w us = Some p
+    /\ nonmem_verdict Ops set (commit Ops B Bt v vr) Gs Hs B Bt p y yi z x w us = VOk.
+Proof. exact nonmem_complete_p. Qed.
+Print Assumptions set_nonmember_complete.
+
+Theorem set_nonmember_no_honest_proof_inside : forall Ops, bp_laws Ops -> forall set v vr invs Gs Hs B Bt sL sR at_ st t1t t2t y yi z x w us,
+  In v set -> nonmem_prove Ops set v vr invs Gs Hs B Bt sL sR at_ st t1t t2t y yi z x w us = None.
+Proof. exact nonmem_no_proof_p. Qed.
+Print Assumptions set_nonmember_no_honest_proof_inside.
+
+(** non-vacuity of [bp_laws] and of the hypotheses of the completeness theorems: the integers as a
+    module over themselves, challenges +-1 (the only units), n = 2, m = 2, values 3 and 1; the
+    model verifier accepts the model proof and rejects it when t_x is off by one *)
+Example laws_nonvacuous :
+  bp_laws ZOps /\ inv_ok ZOps [(-1, -1); (1, 1)]
+  /\ (let p := range_prove ZOps 2 [3; 1] [7; 9] [2; 3; 5; 7] [11; 13; 17; 19] 23 29
+                 [1; 2; 3; 4] [5; 6; 7; 8] 31 37 41 43 (-1) (-1) 10 3 4 [(-1, -1); (1, 1)] in
+      let Vs := vzip (commit ZOps 23 29) (map (fval ZOps 2) [3; 1]) [7; 9] in
+      range_verdict ZOps 2 Vs [2; 3; 5; 7] [11; 13; 17; 19] 23 29 p (-1) (-1) 10 3 4 [(-1, -1); (1, 1)] = VOk
+      /\ map (fval ZOps 2) [3; 1] = [3; 1]
+      /\ range_verdict ZOps 2 Vs [2; 3; 5; 7] [11; 13; 17; 19] 23 29
+           (mkProof ZOps (pA _ p) (pS _ p) (pT1 _ p) (pT2 _ p) (ptx _ p + 1) (ptxt _ p) (pet _ p) (plr _ p) (pa _ p) (pb _ p))
+           (-1) (-1) 10 3 4 [(-1, -1); (1, 1)] = VFirst)
+  /\ (exists p, mem_prove ZOps [5; 6; 7] 7 100 [2; 3; 5; 7] [11; 13; 17; 19] 23 29
+                  [1; 2; 3; 4] [5; 6; 7; 8] 31 37 41 43 (-1) (-1) 10 3 4 [(-1, -1); (1, 1)] = Some p
+        /\ mem_verdict ZOps [5; 6; 7] (commit ZOps 23 29 7 100) [2; 3; 5; 7] [11; 13; 17; 19] 23 29 p (-1) (-1) 10 3 4 [(-1, -1); (1, 1)] = VOk).
+Proof.
+  split; [exact ZOps_laws|]. split; [repeat constructor|]. split.
+  - vm_compute. repeat split; reflexivity.
+  - eexists. vm_compute. split; reflexivity.
+Qed.
+Print Assumptions laws_nonvacuous.
 
 (** non-vacuity: the BLS12-381 scalar order satisfies the hypothesis on r, and boundary instances *)
 Example r_bls_ok :
